@@ -118,6 +118,8 @@ fn main() {
         "c12" => props::fm::run_c12(seed, n, &mut out),
         "c18api" => props::c18::run_api(seed, n, &mut out),
         "c18recv" => props::c18::run_recv(seed, n, &mut out, if n >= 100000 { 4 } else { 3 }),
+        "c19a" => props::c19::run_a(seed, n, &mut out),
+        "c19b" => props::c19::run_b(seed, n, &mut out),
         "c13" => props::fm::run_c13(seed, n, &mut out),
         "c14" => props::fm::run_c14(seed, n, &mut out),
         "c15b" => props::fm::run_c15b(seed, n, &mut out),
